@@ -45,14 +45,15 @@ func init() {
 // Scenario is the replayable form of one case: a configuration, the probe
 // battery and the signature it must show (or "must be rejected").
 type Scenario struct {
-	Cfg        Config  `json:"cfg"`
-	Probes     []Probe `json:"probes"`
-	MustReject bool    `json:"must_reject,omitempty"`
-	RejectWhy  string  `json:"reject_why,omitempty"`
-	Expect     string  `json:"expect,omitempty"`
-	Desc       *Desc   `json:"description,omitempty"`
-	Style      *Style  `json:"style,omitempty"`
-	NearMiss   string  `json:"near_miss,omitempty"`
+	Cfg        Config   `json:"cfg"`
+	Probes     []Probe  `json:"probes"`
+	MustReject bool     `json:"must_reject,omitempty"`
+	Allowed    []string `json:"allowed,omitempty"` // signatures tolerated instead of a rejection
+	RejectWhy  string   `json:"reject_why,omitempty"`
+	Expect     string   `json:"expect,omitempty"`
+	Desc       *Desc    `json:"description,omitempty"`
+	Style      *Style   `json:"style,omitempty"`
+	NearMiss   string   `json:"near_miss,omitempty"`
 }
 
 func replay(raw json.RawMessage) (bool, string) {
@@ -67,6 +68,12 @@ func replay(raw json.RawMessage) (bool, string) {
 		fmt.Fprintf(&sb, "the text cannot be represented (%s) and must be rejected\nobserved:\n%s", sc.RejectWhy, o.String())
 		if o.Err {
 			fmt.Fprintf(&sb, " (%s)\n", o.ErrMsg)
+		}
+		for _, a := range sc.Allowed {
+			if a == o.String() {
+				sb.WriteString("(tolerated: it compiles to exactly the rules it was derived from)\n")
+				return false, sb.String()
+			}
 		}
 		return !o.Err, sb.String()
 	}
@@ -178,9 +185,9 @@ func stylesFor(axis string, n int, d Desc, thorough bool, emit func(Style)) {
 		// every description still sees each layout dimension
 		emit(Style{Cont: []int{0, nb - 1}, Indent: 1})
 		emit(Style{Cont: []int{1}, CRLF: true, NoFinal: true})
-		emit(Style{Comments: 1, Place: 1})
-		emit(Style{Place: 2, Cont: []int{nb / 2}})
-		emit(Style{Place: 3, Indent: 1})
+		emit(Style{Comments: 1, Place: 1, DirCase: 1})
+		emit(Style{Place: 2, Cont: []int{nb / 2}, DirCase: 2})
+		emit(Style{Place: 3, Indent: 1, ActCase: 1})
 	}
 }
 
@@ -342,6 +349,14 @@ func (cc *caseCtx) classifyRendering(st Style, o Sig) string {
 	how := diffKind(cc.exp, o)
 	if len(culprits) > 0 {
 		return "rendering:" + culprits[0] + ":" + how
+	}
+	// no single dimension: the first pair of dimensions that fails together
+	for i := 0; i < len(dims); i++ {
+		for j := i + 1; j < len(dims); j++ {
+			if ok, _, _ := matches(cc.d, st.only(dims[i]).with(st.only(dims[j]))); !ok {
+				return "rendering:" + dims[i] + "+" + dims[j] + ":" + how
+			}
+		}
 	}
 	return "rendering:combination:" + strings.Join(dims, "+") + ":" + how
 }
@@ -655,12 +670,19 @@ var unspecified = map[string]bool{
 	"model: missing-id":                        true,
 }
 
-// sameOn: o, observed on probes, equals the expected signature e (which was
-// computed on the same probes).
-func sameOn(o Sig, probes []Probe, e Sig) bool { return o.String() == e.String() }
+// literalReading: cfg, read with slashes inside unquoted keys taken literally,
+// is a spelling of rules that behave as observed.
+func (cc *caseCtx) literalReading(cfg Config, o Sig) bool {
+	rules, err := refConfig(cfg, true)
+	if err != nil {
+		return false
+	}
+	return expect(rules, cc.probes).String() == o.String()
+}
 
 func (cc *caseCtx) nearMisses(st Style, seen map[string]bool) {
 	text, delims := renderRule(cc.d, st)
+	orig := cc.rules
 	try := func(name, kind string, cfg Config) {
 		key := cfgKey(cfg)
 		if seen[key] {
@@ -668,7 +690,7 @@ func (cc *caseCtx) nearMisses(st Style, seen map[string]bool) {
 			return
 		}
 		seen[key] = true
-		cc.nearMiss(name, kind, cfg)
+		cc.nearMiss(name, kind, cfg, orig)
 	}
 	for _, dl := range delims {
 		if !ownDelim(cc.axis, dl.Kind) {
@@ -693,16 +715,17 @@ func (cc *caseCtx) nearMisses(st Style, seen map[string]bool) {
 	try("continuation on the last line, no newline", "final-continuation", Config{Main: trimmed + " \\"})
 	if st.Place == 0 && len(st.Cont) == 0 {
 		lone, _ := renderRule(cc.d, Style{})
+		orig = []Desc{cc.d}
 		try("continuation on the last line (rule last)", "final-continuation", Config{Main: "SecRuleEngine On\n" + lone + " \\\n"})
 	}
 }
 
-func (cc *caseCtx) nearMiss(name, kind string, cfg Config) {
+func (cc *caseCtx) nearMiss(name, kind string, cfg Config, orig []Desc) {
 	c := cc.c
 	c.Count("evaluations", 1)
 	c.Count("near_misses", 1)
 	c.Distinct(cfgKey(cfg))
-	rules, rerr := refConfig(cfg)
+	rules, rerr := refConfig(cfg, false)
 	probes := cc.probes
 	var exp Sig
 	if rerr != nil {
@@ -728,13 +751,17 @@ func (cc *caseCtx) nearMiss(name, kind string, cfg Config) {
 		// a readable text that the parser refuses: not "silently altered"
 		c.Count("near_misses_readable_but_rejected", 1)
 		return
-	case exp.Err && sameOn(o, cc.probes, cc.exp):
+	case exp.Err && o.String() == expect(orig, probes).String():
 		// not a spelling of anything, but it compiles to exactly the rule it
 		// was derived from: nothing is altered
 		c.Count("near_misses_tolerated_same_meaning", 1)
 		return
 	case exp.Err && (rerr != nil && unspecified[kindOf(rerr)] || rerr == nil && unspecified[exp.ErrMsg]):
 		c.Count("skipped_unspecified", 1)
+		return
+	case exp.Err && rerr != nil && kindOf(rerr) == "slash-inside-plain-key" && cc.literalReading(cfg, o):
+		// a slash inside an unquoted key may be read as an ordinary character
+		c.Count("near_misses_literal_reading", 1)
 		return
 	case exp.Err:
 		why := "model: the description it spells cannot be compiled"
@@ -746,7 +773,11 @@ func (cc *caseCtx) nearMiss(name, kind string, cfg Config) {
 			sig += exp.ErrMsg
 		}
 		what := fmt.Sprintf("near-miss text (%s) is not a spelling of any rule list (%s) but compiles without error\n%sobserved:\n%s", name, why, cfg.String(), os)
-		c.Violation(sig, what, Scenario{Cfg: cfg, Probes: probes, MustReject: true, RejectWhy: why, NearMiss: name, Desc: &cc.d})
+		allowed := []string{expect(orig, probes).String()}
+		if rules2, err2 := refConfig(cfg, true); err2 == nil {
+			allowed = append(allowed, expect(rules2, probes).String())
+		}
+		c.Violation(sig, what, Scenario{Cfg: cfg, Probes: probes, MustReject: true, RejectWhy: why, Allowed: allowed, NearMiss: name, Desc: &cc.d})
 		return
 	}
 	c.Count("near_misses_readable", 1)
